@@ -166,6 +166,20 @@ Definition checked_div (a b : Z) : option value :=
 Definition checked_rem (a b : Z) : option value :=
   if b =? 0 then None else if (a =? - two63) && (b =? -1) then None else Some (VInt (Z.rem a b)).
 
+(** the integer arithmetic of [eval_arithmetic] BEFORE the repair f0940d4 ([a + b], [a / b] ...
+    on i64): a panic where the checked operations now yield no value *)
+Definition arith_pre (m : mode) (op : binop) (a b : Z) : res (option value) :=
+  match op with
+  | Add => rmap (fun r => Some (VInt r)) (add_i64 m a b)
+  | Sub => rmap (fun r => Some (VInt r)) (sub_i64 m a b)
+  | Mul => match m with
+           | Checked => if in_i64b (a * b) then Ok (Some (VInt (a * b))) else Panic
+           | Wrapping => Ok (Some (VInt (sint64 (a * b))))
+           end
+  | Div => if b =? 0 then Panic else if (a =? - two63) && (b =? -1) then Panic else Ok (Some (VInt (Z.quot a b)))
+  | _ => Ok None
+  end.
+
 Section Eval.
   (** uninterpreted float arithmetic: [fa op a b] for [op] in Add/Sub/Mul/Div/Mod on bit patterns *)
   Variable fa : binop -> Z -> Z -> Z.
